@@ -43,6 +43,7 @@ type vrtConn struct {
 	readsSinceArm int
 	writesAfterClose int
 	wcap       int // > 0: the peer has stopped reading - Write blocks once wcap bytes are pending
+	hold       bool // the peer's receive window is closed altogether: every Write waits
 	wseq       int
 	wblocked   []int // tickets of the goroutines blocked in Write
 	eofWithLast bool // the last bytes and the end of the stream are delivered by one Read (n > 0, io.EOF), as crypto/tls does
@@ -86,14 +87,14 @@ func (c *vrtConn) Write(b []byte) (int, error) {
 	vrtTouch()
 	c.mu.Lock()
 	defer c.mu.Unlock()
-	if c.wcap > 0 && len(c.out) >= c.wcap && !c.closed && !c.peerClosed {
+	if (c.hold || (c.wcap > 0 && len(c.out) >= c.wcap)) && !c.closed && !c.peerClosed {
 		// the peer's receive window is full. If several goroutines are blocked in Write when it opens again,
 		// the one that came LAST is served first (the order is unspecified for a socket; the library's design
 		// has a single writer per connection, for which this makes no difference)
 		c.wseq++
 		my := c.wseq
 		c.wblocked = append(c.wblocked, my)
-		for !c.closed && !c.peerClosed && ((c.wcap > 0 && len(c.out) >= c.wcap) || c.wblocked[len(c.wblocked)-1] != my) {
+		for !c.closed && !c.peerClosed && (c.hold || (c.wcap > 0 && len(c.out) >= c.wcap) || c.wblocked[len(c.wblocked)-1] != my) {
 			c.cond.Wait()
 		}
 		for i, t := range c.wblocked {
@@ -183,6 +184,14 @@ func (c *vrtConn) peerStall(n int) {
 	c.mu.Lock()
 	c.wcap = n
 	c.cond.Broadcast() // (n == 0: the peer reads again)
+	c.mu.Unlock()
+}
+
+// peerHold: the peer accepts nothing (true) / reads again (false).
+func (c *vrtConn) peerHold(h bool) {
+	c.mu.Lock()
+	c.hold = h
+	c.cond.Broadcast()
 	c.mu.Unlock()
 }
 
